@@ -105,6 +105,19 @@ def run_case(case, rec=None):
             t.rec = r
             t.cls = cls
             classes.add("cross_class_merge")
+        if cls is H.IH5MFRecord and case.get("mf_elsewhere") and os.path.exists(recutil.manifest_path(r.ih5_files[-1])):
+            # the newest manifest is kept under another name and handed over explicitly (manifest_file=...)
+            files_all = [str(p) for p in r.ih5_files]
+            r.close()
+            elsewhere = os.path.join(d, "manifest-kept-elsewhere.json")
+            os.rename(recutil.manifest_path(files_all[-1]), elsewhere)
+            try:
+                r = cls([Path(f) for f in files_all], "r", manifest_file=Path(elsewhere))
+            except Exception as e:  # noqa: BLE001
+                H.close_leaked_h5()
+                raise Violation("C05:record-does-not-open-with-manifest-file", f"{type(e).__name__}: {e}", "opens")
+            t.rec = r
+            classes.add("manifest_given_explicitly")
         meta_before = recutil.meta_dicts(r)
         files_before = [str(p) for p in r.ih5_files]
         dig_before = recutil.dir_digest(d)
@@ -195,6 +208,11 @@ def run_case(case, rec=None):
         finally:
             if m is not None:
                 m.close()
+        if "manifest_given_explicitly" in classes:
+            # (the remaining steps reopen the source by name, where its newest manifest is no longer found)
+            if rec is not None:
+                rec.case(nt_key=None, classes=sorted(classes), sample=None)
+            return
         # 4. follow-up patches on the source apply to the merged container
         patches = []
         n_src = len(files_before)
@@ -321,9 +339,9 @@ def run_shard(shard, tier, seed, rec):
     n = {"quick": 80, "thorough": 1200}[tier]
     cls_name = "IH5Record" if i % 2 == 0 else "IH5MFRecord"
     fu = st.lists(H.histories(1, 8, boundary_weight=0), min_size=0, max_size=3)
-    strat = st.builds(lambda h, f, mc: dict(history=h, followups=f if mc is None else [], cls=cls_name, merge_cls=mc),
+    strat = st.builds(lambda h, f, mc, me: dict(history=h, followups=f if mc is None and not me else [], cls=cls_name, merge_cls=mc, mf_elsewhere=me),
                       H.histories(2, 25 if tier == "quick" else 50, boundary_weight=2), fu,
-                      st.sampled_from([None, None, None, "IH5Record", "IH5MFRecord"]))
+                      st.sampled_from([None, None, None, "IH5Record", "IH5MFRecord"]), st.sampled_from([False, False, False, True]))
     hyp.search(strat, lambda c: run_case(c, rec), rec, seed=seed * 1000 + i, max_examples=n,
                shrink_budget_s=25 if tier == "quick" else 120)
 
